@@ -66,7 +66,8 @@ type Top struct {
 func mkOuter(withPInner bool) Outer {
 	core := Core{"core.Alpha", "core.Beta", "core.Gamma"}
 	in := Inner{Name: "inner.Name", Deep: "inner.Deep", hidden: 1, Core: core}
-	o := Outer{Name: "outer.Name", Age: 42, Inner: in, Tags: []string{"t0", "t1", "t2"}, M: map[string]int{"a": 1, "zero": 0},
+	o := Outer{Name: "outer.Name", Age: 42, Inner: in, Tags: append(make([]string, 0, 16), "t0", "t1", "t2", "HIDDEN", "HIDDEN")[:3], // spare capacity: nothing behind len may be reachable
+		M: map[string]int{"a": 1, "zero": 0},
 		P: &Inner{Name: "inner.Name", Deep: "inner.Deep", hidden: 1, Core: core}, I: in, secret: "secret", Arr: [2]string{"a0", "a1"}, S: "hi",
 		MN: map[NamedKey]string{"k": "mn.k"}, MI: map[int]string{1: "mi.1"}}
 	if withPInner {
@@ -82,7 +83,7 @@ func c06Roots() map[string]interface{} {
 	return map[string]interface{}{
 		"outer": o, "p_outer": po, "pp_outer": &po, "nilp": (*Inner)(nil), "outer2": o2, "p_outer2": &o2,
 		"m": o.M, "mn": o.MN, "mi": o.MI, "mp": map[string]*Outer{"o": po, "n": nil}, "tags": o.Tags, "arr": o.Arr,
-		"outers": []Outer{o}, "s:hi": "hi", "nil": nil, "nilmap": map[string]int(nil), "i_inner": o.I, "inner": o.Inner, "pinner": *o.PInner, "core": o.Inner.Core, "top": Top{TopName: "top.TopName", Outer: o},
+		"outers": append(make([]Outer, 0, 12), o, o)[:1], "s:hi": "hi", "nil": nil, "nilmap": map[string]int(nil), "i_inner": o.I, "inner": o.Inner, "pinner": *o.PInner, "core": o.Inner.Core, "top": Top{TopName: "top.TopName", Outer: o},
 	}
 }
 
